@@ -59,6 +59,10 @@ def make_layouts(rng, tier):
     out.append(('prefix', real.make_layout([1, 1, 1], names=['', 'e1', 'e2', 'e12', 'e1e', 'e', 'e21', 'e123']), True))
     out.append(('xyz', real.make_layout([1, -1], names=['', 'x', 'y', 'xy']), True))
     out.append(('meta', real.make_layout([1, 1], names=['', 'a.b', 'a+', 'a.b+']), False))     # regex metacharacters: '+' is also an operator, str->parse not claimed
+    # names with a non-word character in their interior: custom ones, and the default names of a layout whose first id is negative (`e-1`, `e-10`, …)
+    out.append(('colon', real.make_layout([1, -1], names=['', 'v:x', 'v:y', 'v:xy']), True))
+    out.append(('dotted', real.make_layout([1, 1], names=['', 'p.1', 'p.2', 'p.12']), True))
+    out.append(('firstidx_neg', real.make_layout([1, 1, -1], first=-1), True))
     out.append(('firstidx0', cf.Cl(2, 1, firstIdx=0)[0], True))
     out.append(('firstidx3', cf.Cl(2, 1, firstIdx=3)[0], True))             # any first index other than the default 1 and 0
     fk = int(rng.integers(2, 8))
